@@ -437,6 +437,24 @@ def matchLoop (cmp : Str → Str → Except Err Int) (vname : Str) :
 def versionMatch (vname expr : Str) : Except Err Bool :=
   matchLoop (stdCompare true) vname (tokenize expr) none none
 
+/-! ## `Eups.isLegalRelativeVersion` -/
+
+/-- `_bad_relop_re.match(s)`, `^\s*=\s+\S+`: blanks, a single `=`, at least one blank, something that is not a blank. -/
+def badRelop (s : Str) : Bool :=
+  match s.dropWhile Str.isSpace with
+  | 61 :: rest => !(rest.takeWhile Str.isSpace).isEmpty && !(rest.dropWhile Str.isSpace).isEmpty
+  | _ => false
+
+/-- how `isLegalRelativeVersion(versionName)` ends: `True`, `False`, or
+`EupsException("Bad expr syntax: …; did you mean '=='?")` -/
+inductive Legal | relational | plain | badSyntax
+  deriving DecidableEq, Repr
+
+/-- `Eups.isLegalRelativeVersion` on a string (`None` gives `False`, as the empty string does):
+an expression is one that contains a relational operator *anywhere* (`_relop_re.search`). -/
+def isLegalRelativeVersion (s : Str) : Legal :=
+  if hasRelop s then .relational else if badRelop s then .badSyntax else .plain
+
 /-! ## latest -/
 
 /-- the names with their split forms (the sort compares every name: a malformed one raises) -/
@@ -492,8 +510,11 @@ def belowMin (minver : Option Str) (l : Lexed) : Except Err Bool :=
 versions sorted by the comparator (cache branch: `vers.sort(...)`, `vers[-1]`; database branch:
 `_selectPreferredProduct(findProducts(...), [Tag("latest")])`); a stack whose latest is below `minver`
 is passed over; a later stack replaces the candidate only when its latest is strictly later.
-Stacks are the lists of declared versions in the order the branch enumerates them (database branch:
-`dbOrder`), in path order.  Returns (stack index, version). -/
+Stacks are the lists of declared versions in the order the branch enumerates them, in path order: the
+cache branch in the order of declaration (`ProductFamily.getVersions` = the keys of a dict, whose insertion
+order the pickled cache keeps), the database branch in string order (`dbOrder`).  The order only matters
+when two versions of one stack compare equal (`1.0`/`1_0`): the sort is stable, `vers[-1]` is the last of
+them.  Returns (stack index, version). -/
 def latestAcrossGo (minver : Option Str) (i : Nat) (out : Option (Nat × Str × Lexed)) :
     List (List Str) → Except Err (Option (Nat × Str × Lexed))
   | [] => .ok out
@@ -556,5 +577,244 @@ def preferredByExpr (expr : Str) (stacks : List (List Str)) : Except Err (Option
     | .error e => .error e
     | .ok none => .ok none
     | .ok (some i) => .ok ms[i]?
+
+/-! ## listing: `Eups.findProducts(name, version, tags)` — `eups list prod "expr" -t tag`
+
+One product name, one flavor, no set-up products; `version` is a relational expression, a shell pattern
+(literal characters, `*`, `?`) or absent (`[]`); `tags` are names of global tags and/or the pseudo-tag
+`latest`.  A stack is the list of its declared versions in the order of declaration (the order in which
+the cache enumerates them), each with the tags assigned to it in that stack. -/
+
+/-- a declared version and the tags it carries in its stack -/
+structure Decl where
+  ver : Str
+  tags : List Str
+  deriving DecidableEq, Repr
+
+/-- `fnmatch.fnmatch(s, pat)` for patterns of literal characters, `*` and `?` -/
+def globMatch : Str → Str → Bool
+  | [], s => s.isEmpty
+  | 42 :: ps, s => (List.range (s.length + 1)).any fun k => globMatch ps (s.drop k)
+  | 63 :: ps, s =>
+    match s with
+    | [] => false
+    | _ :: t => globMatch ps t
+  | c :: ps, s =>
+    match s with
+    | [] => false
+    | d :: t => c == d && globMatch ps t
+
+def sLatest : Str := [108, 97, 116, 101, 115, 116]
+
+/-- how a listing ends: the `EupsException` of `isLegalRelativeVersion` ("did you mean '=='?"), or products
+as (stack index, version) in the order they are returned -/
+inductive ListOut
+  | badSyntax
+  | products (l : List (Nat × Str))
+  deriving DecidableEq, Repr
+
+/-- does the declared version pass the `version` argument (`verArg ≠ []`)?  `none`: the argument is refused -/
+def verOk (verArg v : Str) : Except Err (Option Bool) :=
+  match isLegalRelativeVersion verArg with
+  | .relational =>
+    match versionMatch v verArg with
+    | .error e => .error e
+    | .ok b => .ok (some b)
+  | .plain => .ok (some (globMatch verArg v))
+  | .badSyntax => .ok none
+
+/-- `[v for v in vers if …]` -/
+def filterVers (verArg : Str) : List Str → Except Err (Option (List Str))
+  | [] => .ok (some [])
+  | v :: vs =>
+    match verOk verArg v with
+    | .error e => .error e
+    | .ok none => .ok none
+    | .ok (some b) =>
+      match filterVers verArg vs with
+      | .error e => .error e
+      | .ok none => .ok none
+      | .ok (some l) => .ok (some (if b then v :: l else l))
+
+/-- `vers.sort(key=cmp_to_key(version_cmp))` as a stable insertion sort (on a total preorder every stable
+sort gives this list; `C10_latest_is_last_of_sort` is the corresponding statement for its last element) -/
+def insertVer (x : Str × Lexed) : List (Str × Lexed) → List (Str × Lexed)
+  | [] => [x]
+  | y :: ys => if cmpSort x.2 y.2 ≤ 0 then x :: y :: ys else y :: insertVer x ys
+
+def sortVers : List (Str × Lexed) → List (Str × Lexed)
+  | [] => []
+  | x :: xs => insertVer x (sortVers xs)
+
+/-- `findTaggedProduct(pname, t)` for a global tag, over the whole path: the first stack with a version so tagged -/
+def taggedAcross (t : Str) (i : Nat) : List (List Decl) → Option (Nat × Str)
+  | [] => none
+  | st :: rest =>
+    match st.find? (fun d => d.tags.contains t) with
+    | some d => some (i, d.ver)
+    | none => taggedAcross t (i + 1) rest
+
+/-- `utils.uniq(out)`: products are equal when name, version and flavor are — the stack is not looked at -/
+def uniqVers : List (Nat × Str) → List Str → List (Nat × Str)
+  | [], _ => []
+  | p :: ps, seen => if seen.contains p.2 then uniqVers ps seen else p :: uniqVers ps (p.2 :: seen)
+
+/-- the body of the loop over the stacks for one stack `st` with index `i` -/
+def listStack (verArg : Str) (tags : List Str) (all : List (List Decl)) (i : Nat) (st : List Decl)
+    (out : List (Nat × Str)) : Except Err (Option (List (Nat × Str))) :=
+  -- `for t in tags:` a tagged product of the whole path is appended as it is; `latest` is this stack's latest
+  let out1 := out ++ (tags.filter (· != sLatest)).filterMap (fun t => taggedAcross t 0 all)
+  match lexPairs (st.map (·.ver)) with
+  | .error e => .error e
+  | .ok allPs =>
+    let latest : Option Str := if tags.contains sLatest then (lastMax none allPs).map (·.1) else none
+    match (if verArg.isEmpty then .ok (some (st.map (·.ver))) else filterVers verArg (st.map (·.ver))) with
+    | .error e => .error e
+    | .ok none => .ok none
+    | .ok (some vers) =>
+      match lexPairs vers with
+      | .error e => .error e
+      | .ok ps =>
+        let sorted := (sortVers ps).map (·.1)
+        -- "only include latest if it passes the version constraint"
+        let latest' := match latest with
+          | some l => if sorted.contains l then some l else none
+          | none => none
+        let body := sorted.filter fun v =>
+          if tags.isEmpty then true
+          else if latest' == some v then false       -- added at the end, not to list it twice
+          else (st.find? (fun d => d.ver == v)).any fun d => d.tags.any tags.contains
+        .ok (some (out1 ++ body.map (fun v => (i, v)) ++ (match latest' with | some l => [(i, l)] | none => [])))
+
+def listStacks (verArg : Str) (tags : List Str) (all : List (List Decl)) :
+    Nat → List (List Decl) → List (Nat × Str) → Except Err (Option (List (Nat × Str)))
+  | _, [], out => .ok (some out)
+  | i, st :: rest, out =>
+    if st.isEmpty then listStacks verArg tags all (i + 1) rest out     -- the product is not in this stack
+    else match listStack verArg tags all i st out with
+      | .error e => .error e
+      | .ok none => .ok none
+      | .ok (some out') => listStacks verArg tags all (i + 1) rest out'
+
+/-- the filter at the end: `out = [p for p in out if self.version_match(p.version, version)]` (or `fnmatch`) -/
+def finalFilter (verArg : Str) : List (Nat × Str) → Except Err (Option (List (Nat × Str)))
+  | [] => .ok (some [])
+  | p :: ps =>
+    match verOk verArg p.2 with
+    | .error e => .error e
+    | .ok none => .ok none
+    | .ok (some b) =>
+      match finalFilter verArg ps with
+      | .error e => .error e
+      | .ok none => .ok none
+      | .ok (some l) => .ok (some (if b then p :: l else l))
+
+/-- `Eups.findProducts(name, version, tags)` -/
+def listProducts (verArg : Str) (tags : List Str) (stacks : List (List Decl)) : Except Err ListOut :=
+  match listStacks verArg tags stacks 0 stacks [] with
+  | .error e => .error e
+  | .ok none => .ok .badSyntax
+  | .ok (some out) =>
+    if verArg.isEmpty then .ok (.products (uniqVers out []))
+    else if isLegalRelativeVersion verArg = .badSyntax then .ok .badSyntax
+    else match finalFilter verArg out with
+      | .error e => .error e
+      | .ok none => .ok .badSyntax
+      | .ok (some l) => .ok (.products (uniqVers l []))
+
+/-! ## a version argument at the other entry points: `findProduct(name, arg)`, `findProductFromVRO(name, version=arg)` -/
+
+def versOf (stacks : List (List Decl)) : List (List Str) := stacks.map fun st => st.map (·.ver)
+
+/-- the declared version `p` carries the tag `t` in its stack -/
+def carries (stacks : List (List Decl)) (p : Nat × Str) (t : Str) : Bool :=
+  match stacks[p.1]? with
+  | some st => (st.find? (fun d => d.ver == p.2)).any fun d => d.tags.contains t
+  | none => false
+
+/-- `_selectPreferredProduct(products, preferredTags)`: the first preferred tag that selects something — `latest` selects
+the latest of the products, another tag the first product (in the order given) that carries it -/
+def selectPreferred (stacks : List (List Decl)) (ms : List (Nat × Str)) : List Str → Except Err (Option (Nat × Str))
+  | [] => .ok none
+  | t :: ts =>
+    if ms.isEmpty then .ok none
+    else if t == sLatest then
+      match latest (ms.map (·.2)) with
+      | .error e => .error e
+      | .ok none => selectPreferred stacks ms ts
+      | .ok (some k) => .ok ms[k]?
+    else match ms.find? (fun p => carries stacks p t) with
+      | some p => .ok (some p)
+      | none => selectPreferred stacks ms ts
+
+/-- `Eups.findProduct(name, expr)` for a relational request: `_findPreferredProductByExpr` with the preferred tags of
+the session (`current` before `latest` by default) -/
+def findProductExpr (preferred : List Str) (expr : Str) (stacks : List (List Decl)) : Except Err (Option (Nat × Str)) :=
+  match matchesAcross expr (versOf stacks) with
+  | .error e => .error e
+  | .ok ms => selectPreferred stacks ms preferred
+
+/-- an explicit version: the first stack (path order) that declares exactly this string -/
+def exactLookup (v : Str) (i : Nat) : List (List Decl) → Option (Nat × Str)
+  | [] => none
+  | st :: rest => if st.any (fun d => d.ver == v) then some (i, v) else exactLookup v (i + 1) rest
+
+/-- how `findProductFromVRO(name, version=arg, vro=["version", "versionExpr"])` (the way `setup prod arg` resolves its
+argument) ends: refused, nothing, or a product with the VRO entry that found it (`true` = `versionExpr`) -/
+inductive Entry
+  | badSyntax
+  | nothing
+  | found (byExpr : Bool) (i : Nat) (v : Str)
+  deriving DecidableEq, Repr
+
+def requestEntry (arg : Str) (stacks : List (List Decl)) : Except Err Entry :=
+  match isLegalRelativeVersion arg with
+  | .badSyntax => .ok .badSyntax
+  | .plain =>
+    match exactLookup arg 0 stacks with
+    | some (i, v) => .ok (.found false i v)
+    | none => .ok .nothing
+  | .relational =>
+    match preferredByExpr arg (versOf stacks) with
+    | .error e => .error e
+    | .ok (some (i, v)) => .ok (.found true i v)
+    | .ok none =>
+      -- "If we failed to find a versionExpr, we can still use the explicit version"
+      match exactLookup arg 0 stacks with
+      | some (i, v) => .ok (.found false i v)
+      | none => .ok .nothing
+
+/-! ## `latest` across package repositories: `distrib.Repositories.findPackage(product, Tag("latest"))`
+
+Every repository answers with the last of its versions sorted by the comparator (`Repository.listPackages` sorts,
+`findPackage` takes `[-1]`); over the repositories (`EUPS_PKGROOT`, in order) the tree with the repair D5c keeps the
+first repository whose latest is strictly later than the candidate — which is `latestAcross` above, the same loop as
+over the stacks (running the loop once per preferred flavor, as the code does, changes nothing: ties keep the
+first).  The pinned code compared the wrong way round and returned at once otherwise: -/
+
+/-- the pinned loop: the candidate is replaced when it is *later* than the next repository's latest, and the next
+repository's latest is returned on the spot when it is not -/
+def latestReposPinnedGo (i : Nat) (latest : Option (Nat × Str × Lexed)) : List (List Str) → Except Err (Option (Nat × Str))
+  | [] => .ok (latest.map fun (j, v, _) => (j, v))
+  | repo :: rest =>
+    match lexPairs repo with
+    | .error e => .error e
+    | .ok ps =>
+      match lastMax none ps with
+      | none => latestReposPinnedGo (i + 1) latest rest
+      | some (v, l) =>
+        match latest with
+        | none => latestReposPinnedGo (i + 1) (some (i, v, l)) rest
+        | some (_, _, lw) =>
+          if cmpSort lw l > 0 then latestReposPinnedGo (i + 1) (some (i, v, l)) rest
+          else .ok (some (i, v))
+
+/-- the loop over the repositories is run once per preferred flavor (`passes` times: every repository answers every
+flavor with its `generic` package), the candidate carried over -/
+def latestReposPinned (passes : Nat) (repos : List (List Str)) : Except Err (Option (Nat × Str)) :=
+  match latestReposPinnedGo 0 none (List.replicate passes repos).flatten with
+  | .error e => .error e
+  | .ok none => .ok none
+  | .ok (some (i, v)) => .ok (some (i % repos.length, v))
 
 end EupsModel.VersionCmp
